@@ -155,7 +155,9 @@ class FixedHugr:
     hugr: Hugr
 
     def _to_serial(self) -> ext_s.FixedHugr:
-        return ext_s.FixedHugr(extensions=self.extensions, hugr=self.hugr)
+        return ext_s.FixedHugr(
+            extensions=self.extensions, hugr=self.hugr._to_serial()
+        )
 
 
 @dataclass
